@@ -12,6 +12,7 @@ alarm, exit 2 an analysis that stopped understanding the code.  /repo is never t
   notin    not (a in b) -> a not in b ; not (a is b) -> a is not b   and back
   ifelse   if c: A else: B  ->  if not c: B else: A   (two-armed ifs that are not elif chains)
   rettmp   return E  ->  _ret = E ; return _ret
+  elseret  if c: A(leaves) else: B  ->  if c: A ; B          retelse  if c: A(leaves) ; rest  ->  if c: A else: rest
   unparse  no change but the round trip through ast.unparse (layout, parentheses, comments, quotes)
 """
 import ast
@@ -149,11 +150,82 @@ class RetTmp(ast.NodeTransformer):
         return self.generic_visit(fn)
 
 
+_LEAVE = (ast.Return, ast.Raise, ast.Continue, ast.Break)
+
+
+def _blocks(tree):
+    for node in ast.walk(tree):
+        if not isinstance(node, (ast.FunctionDef, ast.If, ast.For, ast.While, ast.With, ast.Try, ast.ExceptHandler)):
+            continue
+        for fld in ("body", "orelse", "finalbody"):
+            b = getattr(node, fld, None)
+            if isinstance(b, list) and b and isinstance(b[0], ast.stmt):
+                yield node, fld, b
+
+
+def _in_function(tree):
+    """only statement lists inside functions are touched (module level `if` chains define names)"""
+    funcs = [n for n in ast.walk(tree) if isinstance(n, ast.FunctionDef)]
+    inside = set()
+    for f in funcs:
+        for n in ast.walk(f):
+            inside.add(id(n))
+    return inside
+
+
+def _rewrite_blocks(tree, fix):
+    """apply fix(list of statements) -> list bottom-up to every statement list inside functions"""
+    def rec(block):
+        for st in block:
+            if isinstance(st, (ast.FunctionDef, ast.ClassDef)):
+                continue
+            for fld in ("body", "orelse", "finalbody"):
+                b = getattr(st, fld, None)
+                if isinstance(b, list) and b and isinstance(b[0], ast.stmt):
+                    setattr(st, fld, rec(b))
+            for h in getattr(st, "handlers", []) or []:
+                h.body = rec(h.body)
+        return fix(block)
+    for fn in [n for n in ast.walk(tree) if isinstance(n, ast.FunctionDef)]:
+        fn.body = rec(fn.body)
+    return tree
+
+
+class ElseRet(object):
+    """if c: A(leaves) else: B   ->   if c: A ; B        (else after return removed; elif chains untouched)"""
+    def visit(self, tree):
+        def fix(b):
+            out = []
+            for st in b:
+                if isinstance(st, ast.If) and st.orelse and st.body and isinstance(st.body[-1], _LEAVE) and \
+                        not (len(st.orelse) == 1 and isinstance(st.orelse[0], ast.If)):
+                    rest = st.orelse
+                    st.orelse = []
+                    out.append(st)
+                    out.extend(rest)
+                else:
+                    out.append(st)
+            return out
+        return _rewrite_blocks(tree, fix)
+
+
+class RetElse(object):
+    """if c: A(leaves) ; rest   ->   if c: A else: rest     (guard clause turned into a two-armed test; only when rest is non-empty)"""
+    def visit(self, tree):
+        def fix(b):
+            for i, st in enumerate(b):
+                if isinstance(st, ast.If) and not st.orelse and st.body and isinstance(st.body[-1], _LEAVE) and i + 1 < len(b):
+                    st.orelse = b[i + 1:]
+                    return b[:i + 1]
+            return b
+        return _rewrite_blocks(tree, fix)
+
+
 class Identity(ast.NodeTransformer):
     pass
 
 
-TRANSFORMS = {"rename": Rename, "flipcmp": FlipCmp, "notin": NotIn, "ifelse": IfElse, "rettmp": RetTmp, "unparse": Identity}
+TRANSFORMS = {"rename": Rename, "flipcmp": FlipCmp, "notin": NotIn, "ifelse": IfElse, "rettmp": RetTmp, "elseret": ElseRet, "retelse": RetElse, "unparse": Identity}
 
 
 def transform(src, name):
